@@ -143,6 +143,8 @@ Proof.
   - apply in_del_lookup in Hl. eapply Hgen; [eassumption | reflexivity | reflexivity].
   - pose proof (rm_apply_frame _ _ _ _ H1) as (_ & Estr & _). rewrite Estr in Hl. eapply Hgen; [eassumption | reflexivity | reflexivity].
   - pose proof (rm_apply_frame _ _ _ _ H1) as (_ & Estr & _). rewrite Estr in Hl. eapply Hgen; [eassumption | reflexivity | reflexivity].
+  - (* drop, shared rule *) apply in_del_lookup in Hl. eapply Hgen; [eassumption | reflexivity | reflexivity].
+  - apply in_del_lookup in Hl. eapply Hgen; [eassumption | reflexivity | reflexivity].
 Qed.
 
 Lemma targets_has l it k c : In (k, c) l -> key_matches k it = true -> In c (targets l it).
@@ -289,7 +291,7 @@ Proof.
     { destruct (cursor (chan_at s (s_ch st)) sid2) as [q|] eqn:E; [|reflexivity]. destruct (Icur _ _ _ Hlt E) as [_ [(st' & Hs' & _)|(r' & a' & Ha' & _)]]; congruence. }
     destruct (Nat.eq_dec sid0 sid2) as [->|Hne].
     + rewrite lookup_put_same in Hl. inversion Hl; subst st0. intros Hreg.
-      change (senders (with_cloned (with_streams (set_chan s (s_ch st) (clone_rcv sid sid2 (chan_at s (s_ch st)))) (put (streams s) sid2 st)) true)) with (senders s) in Hreg.
+      change (In (skey st, s_ch st) (senders s)) in Hreg.
       pose proof (Inv_deliv _ _ _ I Hl0 Hreg) as IH. autorewrite with chat. rewrite chan_at_set_same by assumption.
       rewrite (window_eq s _ (s_ch st) (s_from st)) by reflexivity. rewrite <- IH. f_equal. f_equal.
       unfold unread. rewrite cursor_clone, Hnc, Nat.eqb_refl, Hp0, log_clone. reflexivity.
@@ -341,6 +343,12 @@ Proof.
     + autorewrite with chat. apply unread_soc. apply rm_sender_chan.
     + apply window_eq; tsimp; [apply reader_rm | apply incoming_rm].
   - (* add sender, failed: no senders, nothing is registered *) intros Hreg. change (In (skey st0, s_ch st0) (senders s)) in Hreg. rewrite H2 in Hreg. destruct Hreg.
+  - (* drop, shared rule: as drop *) tsimp. rewrite streams_bury in Hl. destruct (Nat.eq_dec sid0 sid) as [->|Hne]; [now rewrite lookup_del_same in Hl|]. rewrite lookup_del_other in Hl by assumption.
+    destruct H as [Hl0 Hd]. destruct (Istr _ _ Hl0) as (Hlt & _). apply Hkeep; try assumption; [tauto | | apply window_eq; reflexivity].
+    autorewrite with chat. eapply (unread_upd s _ (s_ch st) (drop_rcv sid (chan_at s (s_ch st)))); [reflexivity | assumption|]. intros Ec. split; [now apply cursor_drop_other | reflexivity].
+  - tsimp. rewrite streams_bury in Hl. destruct (Nat.eq_dec sid0 sid) as [->|Hne]; [now rewrite lookup_del_same in Hl|]. rewrite lookup_del_other in Hl by assumption.
+    destruct H as [Hl0 Hd]. destruct (Istr _ _ Hl0) as (Hlt & _). apply Hkeep; try assumption; [tauto | | apply window_eq; reflexivity].
+    autorewrite with chat. eapply (unread_upd s _ (s_ch st) (drop_rcv sid (chan_at s (s_ch st)))); [reflexivity | assumption|]. intros Ec. split; [now apply cursor_drop_other | reflexivity].
 Qed.
 
 End G3.
